@@ -51,8 +51,11 @@ pub fn tree_spec() -> BuilderSpec {
                     (Sym::NegTiny, "just_below", I, false),
                     (Sym::NegZero, "neg_zero", I, false),
                     (Sym::L(0.0), "zero", I, false),
-                    (Sym::Tiny, "just_inside", V, false),
-                    (Sym::EpsBelow, "just_below_machine_epsilon", V, false),
+                    // (0, machine epsilon): the error text says "greater than zero", the guard is
+                    // `< F::epsilon()` and the existing test's comment reads "a small or negative
+                    // impurity decrease panics" -> sources contradict each other: consistency-only
+                    (Sym::Tiny, "just_inside", U, false),
+                    (Sym::EpsBelow, "just_below_machine_epsilon", U, false),
                     (Sym::Eps, "machine_epsilon", V, false),
                     (Sym::L(1e-5), "inside", V, false),
                     (Sym::L(1e10), "far_inside", V, false),
